@@ -94,6 +94,7 @@ impl Session {
     /// parse (no tree yet) or extend (tree present) with one document; on Err/Panic the tree is gone
     pub fn feed(&mut self, bytes: &[u8], cfg: &ReaderCfg, chunk: usize) -> Outcome {
         let prev = self.tree.take();
+        crate::util::toggle_logging();
         if let Some(t) = prev.as_ref() {
             crate::util::probe_render(t);
         }
